@@ -54,6 +54,17 @@ ItemsMX == Uni("IN", "MX", "NONE")
 InitsMX == UniInits("IN", "MX", "NONE") \cup UniInitsFrozen("IN", "MX", "NONE")
 ItemsNS == Uni("IN", "NS", "NONE")
 InitsNS == UniInits("IN", "NS", "NONE")
+(* world "generic": MX records of which some are held in their generic (RFC 3597) form:
+   spelling 3 = spelling 1 as GenericRdata - same class, type and canonical encoding *)
+ItemsGeneric == {It("IN", "MX", "NONE", 1, 1), It("IN", "MX", "NONE", 1, 3), It("IN", "MX", "NONE", 2, 1),
+                 It("IN", "MX", "NONE", 2, 3), It("IN", "MX", "NONE", 3, 3)}
+InitsGeneric ==
+    LET i(c, v) == It("IN", "MX", "NONE", c, v)
+        E == Hd("IN", "MX", "NONE", <<>>, 0)
+    IN {<<E, E, E>>,
+        <<Hd("IN", "MX", "NONE", <<i(1, 1), i(2, 3)>>, 300), Hd("IN", "MX", "NONE", <<i(2, 1), i(1, 3), i(3, 3)>>, 600), E>>,
+        <<Hd("IN", "MX", "NONE", <<i(1, 3)>>, 600), Hd("IN", "MX", "NONE", <<i(1, 1)>>, 300),
+          Hd("IN", "MX", "NONE", <<i(2, 3), i(1, 1)>>, 0)>>}
 (* worlds "cname", "soa": singleton kinds *)
 ItemsCNAME == Uni("IN", "CNAME", "NONE")
 InitsCNAME == SingleInits("IN", "CNAME", "NONE")
